@@ -9,7 +9,7 @@ from .common import MachineryError, check_exc, pmap, seed
 ALL_BASE = "BaseClasses"
 
 
-def behaviours(R, enabled, basesel, depth, factors="{<<2, 1>>, <<1, 3>>}", must_contain=None, workers=8):
+def behaviours(R, enabled, basesel, depth, factors="{<<2, 1>>, <<1, 3>>}", must_contain=None, workers=8, keep=None):
     defs = {"BaseSel": basesel, "Factors": factors, "Enabled": "{" + ", ".join('"%s"' % e for e in enabled) + "}"}
     res = tlc.run_wrapped("OASLaws", "OASLaws.cfg", defs, workers=workers, constants={"Depth": depth}, timeout=1200)
     tlc.require_ok(res)
@@ -20,6 +20,16 @@ def behaviours(R, enabled, basesel, depth, factors="{<<2, 1>>, <<1, 3>>}", must_
         raise MachineryError("OASLaws emitted no behaviours")
     if must_contain:
         behs = [b for b in behs if any(a["name"] in must_contain for a in b["seq"])]
+    if keep and len(behs) > keep:
+        # a seeded sample taken BEFORE the replay workers are forked: the complete emission of a depth-3 run is several GB of
+        # parsed JSON, which sixteen forked workers then copy page by page (the thorough tier of C06 was killed by the OOM killer)
+        idx = np.random.default_rng(seed() + 17).choice(len(behs), keep, replace=False)
+        behs = [behs[i] for i in sorted(idx)]
+    res["emits"] = []
+    res["out"] = ""
+    import gc
+
+    gc.collect()
     return behs, types[0]
 
 
